@@ -85,10 +85,10 @@ impl Monitor for C10 {
         "cases = seeded universes (with and without hints, soft lists) solved under the manual single-thread executor: every provider future parks and exactly one is released per step, chosen by policy (seeded random x4, oldest, newest, candidates-first, dependencies-first); pauses at get_candidates / get_dependencies and, per case, also filter_candidates / sort_candidates. Oracle per run: no deadlock (solver pending with nothing parked), no panic, verdict == synchronous verdict, solution valid (reference + hook invariants), no repeated get_candidates(name) / get_dependencies(solvable). For tiny universes the complete schedule tree is enumerated (exhaustive subset, counted separately). distinct = content hash; non-trivial = distinct case with >= 2 futures parked simultaneously at some quiescent point".into()
     }
     fn cases(&self, tier: Tier) -> u64 {
-        tier.pick(14_000, 700_000)
+        tier.pick(42_000, 840_000)
     }
     fn floor(&self, tier: Tier) -> u64 {
-        tier.pick(2_000, 100_000)
+        tier.pick(2_000, 20_000)
     }
     fn generate(&self, r: &mut Rng, _tier: Tier, i: u64) -> C10Case {
         let exhaustive = i % 10 == 0;
